@@ -94,6 +94,9 @@ func cmdCheck(argv []string) int {
 		return 2
 	}
 	tload := time.Since(t0)
+	kf := loadKnown(*known)
+	eng.known = kf
+	eng.prop = *prop
 	var vcs []*VC
 	var missing []string
 	done := map[string]bool{}
@@ -157,7 +160,7 @@ func cmdCheck(argv []string) int {
 	rep := summarize(eng, vcs, missing, *prop, *tier, *verbose)
 	rep.WallS = time.Since(t0).Seconds()
 	rep.LoadS = tload.Seconds()
-	code := report(eng, rep, *prop, *out, *replays, *tier, loadKnown(*known), tmp, *noReplay)
+	code := report(eng, rep, *prop, *out, *replays, *tier, kf, tmp, *noReplay)
 	return code
 }
 
@@ -310,6 +313,9 @@ func report(eng *Engine, r *Report, prop, out, replays, tier string, kf *KnownFi
 						ok, why = false, "recorded finding does not reproduce on the real code: "+f.Replay.Why
 					}
 				}
+			}
+			if ok && known.ClassSpec != "" && !noReplay && (f.Replay == nil || !f.Replay.Confirmed) {
+				ok, why = false, "recorded finding does not reproduce on the real code"
 			}
 			if ok {
 				f.Known = known.ID
